@@ -145,6 +145,50 @@ theorem c01_error_pipeline_records (ehs : List ErrorHandler) (cause : Err) (c c'
 example : runErrorHandlers failing.errorHandlers (.ofKind .authorization) {} =
     (none, { pipelineErr := some ⟨[], some 303⟩ }) := by decide
 
+/-- **Whatever an error handler renders, it records a pipeline error or fails.**  The `to` template of a redirect
+handler may depend on what the client sent (a header, a query parameter, the URL) and so render to a URL, to the empty
+string, to blanks, to several lines, or not at all.  For every handler kind, rendering outcome, cause and context: the
+handler reports success *and* has recorded a pipeline error, or it is a redirect handler whose template failed — then it
+returns an internal error and leaves the context alone.  There is no third case ("nothing to redirect to, so
+nothing to do"). -/
+theorem c01_handler_records_or_fails (k : EHKind) (cause : Err) (c : Ctx) :
+    (∃ pe, k.run cause c = (none, c.setPipelineError pe)) ∨
+    ((∃ code, k = .redirect .fails code) ∧ k.run cause c = (some (.ofKind .internal), c)) := by
+  cases k with
+  | default => exact Or.inl ⟨cause, rfl⟩
+  | wwwAuthenticate => exact Or.inl ⟨.ofKind .authentication, rfl⟩
+  | redirect to code =>
+    cases to with
+    | value s => exact Or.inl ⟨⟨[], some (redirectCode code)⟩, rfl⟩
+    | fails => exact Or.inr ⟨⟨code, rfl⟩, rfl⟩
+
+/-- the rendered value is not looked at: an empty, a blank, a multi-line `to` all record the redirect … -/
+example : ∀ s ∈ ["", "  ", "\n  \n", "https://a.test/x\nX-Injected: 1", ":%zz"],
+    (EHKind.redirect (.value s) 0).run (.ofKind .authentication) {} = (none, { pipelineErr := some ⟨[], some 302⟩ }) := by
+  decide
+/-- … and the caller of a failed pipeline is redirected (to nowhere) or, when the template fails, gets an internal
+error: never the accepted status, never an OK check response, nothing forwarded -/
+example : answer .decision cfg {} 200 (some { failing with errorHandlers := [⟨.always, .redirect (.value "") 0⟩] }) =
+      .http 302 false ∧
+    answer .envoy cfg {} 200 (some { failing with errorHandlers := [⟨.always, .redirect (.value "  ") 0⟩] }) =
+      .checkDenied 9 302 ∧
+    answer .proxy cfg {} 200 (some { failing with errorHandlers := [⟨.always, .redirect (.value "\n") 307⟩] }) =
+      .http 307 false ∧
+    answer .decision cfg {} 200 (some { failing with errorHandlers := [⟨.always, .redirect .fails 0⟩] }) =
+      .http 503 false ∧
+    answer .envoy cfg {} 200 (some { failing with errorHandlers := [⟨.always, .redirect .fails 0⟩] }) =
+      .checkDenied 13 503 := by decide
+
+/-- **The answer does not depend on what a redirect handler rendered**, only on whether rendering succeeded: replace
+the value rendered by any redirect handler of the rule's error pipeline by any other string (present ↔ empty ↔ blank ↔
+multi-line) — reply and executed mechanisms are the same at every entry point, for every rule and outcome vector. -/
+theorem c01_answer_independent_of_rendered_value (ep : EntryPoint) (cfg : Cfg) (view : ReqView) (up : Nat) (r : Rule)
+    (pre post : List ErrorHandler) (cond : Cond) (code : Nat) (s s' : String) :
+    serve ep cfg view up (some { r with errorHandlers := pre ++ ⟨cond, .redirect (.value s) code⟩ :: post }) =
+    serve ep cfg view up (some { r with errorHandlers := pre ++ ⟨cond, .redirect (.value s') code⟩ :: post }) := by
+  have h := execute_congr_errorHandlers r _ _ (runErrorHandlers_rendered pre post cond code s s')
+  cases ep <;> simp only [serve, serveHTTP, serveEnvoy, execute, h]
+
 /-- **Finalisation is vetoed by a recorded pipeline error**, in all three request contexts: whatever backend the
 rule returned, the answer is the translation of the recorded error, nothing is forwarded, no OK response. -/
 theorem c01_finalize_vetoed (cfg : Cfg) (view : ReqView) (up : Nat) (backend : Bool) (c : Ctx) (e : Err)
@@ -170,7 +214,7 @@ theorem c01_handler_cannot_rescue (ep : EntryPoint) (cfg : Cfg) (view : ReqView)
     exact absurd hc hfail
 
 example : cfg.errorCodesNonSuccess = true ∧
-    ([⟨.always, .default⟩, ⟨.lit true, .redirect true 0⟩] : List ErrorHandler).all (·.redirectNonSuccess) = true ∧
+    ([⟨.always, .default⟩, ⟨.lit true, .redirect (.value "") 0⟩] : List ErrorHandler).all (·.redirectNonSuccess) = true ∧
     ¬ Completed failing :=
   ⟨by decide, by decide, fun h => absurd ((completedB_iff _).mpr h) (by decide)⟩
 
